@@ -43,6 +43,9 @@ PROPS = {
                       rp("storefs", "TestC09Faults", (30, 2), (500, 8), helpers=["cmd/vhelper"])]},
     "C10": {"level": "exploration", "assumptions": SIM_ASSUME + ["variables reach the runner as decoded JSON (float64 numbers), as the API delivers them"],
             "parts": [sim("TestC10Sim", q=(200, 4), t=(2500, 16)), rp("storefs", "TestC10Codec", (2000, 2), (50000, 8))]},
+    "C11": {"level": "exploration", "assumptions": SIM_ASSUME + ["the 3 s persist interval is checked for its stated bound with 1.5 s slack on the sandbox clock; a canary timer turns starvation into 'inconclusive'"],
+            "parts": [sim("TestC11Sim", q=(300, 4), t=(4000, 16)),
+                      {"pkg": "sim", "test": "TestC11Persist", "quick": {"checks": 1, "shards": 1, "shrink": "0s", "timeout": "10m"}, "thorough": {"checks": 4, "shards": 4, "shrink": "0s", "timeout": "1h"}}]},
     "C12": {"level": "exploration", "assumptions": SIM_ASSUME + ["the wall clock of the sandbox: generated job ages stay >=25% away from the retention period boundaries"],
             "parts": [sim("TestC12", q=(250, 4), t=(2500, 16))]},
     "C14": {"level": "exploration", "assumptions": PURE_ASSUME + ["HMAC-SHA256 is unforgeable; the run's secret never appears in a generated invalid credential unless the harness itself signs with it", "route discovery through the verif-only server.Routes hook + chi.Walk"],
